@@ -127,6 +127,10 @@ def run(chk):
                 ns_req = None if rng.random() < 0.5 else int(rng.integers(1, n + 1))
                 mdl = SSPOR(basis=impl.make_basis({"kind": bk, "n_basis_modes": mm}), optimizer=omk(), n_sensors=ns_req)
                 impl.quiet(mdl.fit, X, quiet=True, seed=1)
+                if np.array(mdl.basis_matrix_).shape[1] >= 2 and rng.random() < 0.4:
+                    # fewer modes afterwards: the ranking must be the greedy ranking of the TRUNCATED basis matrix
+                    impl.quiet(mdl.update_n_basis_modes, int(rng.integers(1, np.array(mdl.basis_matrix_).shape[1])), quiet=True)
+                    chk.count("sspor_modes_lowered")
                 Bs = np.array(mdl.basis_matrix_)
                 runs["SSPOR:" + bk] = ([int(i) for i in mdl.ranked_sensors_], Bs)
             except Exception as e:
